@@ -1214,7 +1214,7 @@ class UBCalculation:
                     "Cannot read reflection data for index %s" % str(idx)
                 )
             x.append((refl.h, refl.k, refl.l))
-            wl = 12.3984 / refl.energy
+            wl = 12.39842 / refl.energy
             y_tmp = get_q_phi(refl.pos) * 2.0 * pi / wl
             y.append(y_tmp.T.tolist()[0])
 
